@@ -122,6 +122,14 @@ def battery(req):
         code = t.code
         info["code_uri"] = ("_template_uri = %r" % uri) in code
         info["code_marker"] = req["marker"] in code
+        mf = getattr(t.module, "__file__", None)
+        if path in ("moddir", "moddir-reuse", "modtemplate", "lookup") and mf and os.path.exists(mf):
+            import re as _re
+
+            with open(mf, "rb") as f:
+                raw = f.read()
+            m = _re.match(rb"[ \t\f]*#.*?coding[:=][ \t]*([-\w.]+)", raw.split(b"\n", 1)[0])
+            info["code_is_module_file"] = (code == raw.decode(m.group(1).decode("ascii") if m else "utf-8"))
     except Exception as e:
         info["code_uri"] = "raised %s" % type(e).__name__
     try:
